@@ -83,6 +83,12 @@ class MeshBuild:
 
     def linspace(self, args, kwargs):
         A = self.alg
+        args = list(args)
+        for i_, k_ in enumerate(("start", "stop", "num")):
+            if k_ in kwargs and len(args) == i_:
+                args.append(kwargs[k_])
+        if len(args) < 3:
+            raise AnalysisError("np.linspace without an explicit number of points")
         a, b, num = args[0], args[1], args[2]
         endpoint = kwargs.get("endpoint", True)
         a = self.it.lift(a) if not isinstance(a, RF) else a
